@@ -4,9 +4,9 @@ package main
 // C04 — HTLC: escrow and supply counters match the open contracts.
 
 import (
-	"os"
 	"fmt"
 	"go/types"
+	"os"
 	"strings"
 
 	"golang.org/x/tools/go/ssa"
@@ -549,11 +549,13 @@ func runC04(cx *Ctx, r *Report) {
 			// or be the begin blocker's window reset / new-asset initialisation
 			ok := false
 			why := ""
-			parent := x.ev.Fr.Parent
-			for _, y := range per[name] {
-				if y.ev.Fr == parent && (strings.HasPrefix(y.ev.Kind, "delta:AssetSupply.") || strings.HasPrefix(y.ev.Kind, "assign:AssetSupply.")) {
-					ok = true
-					why = "next to " + y.ev.Kind
+			// (the writer may sit below further thin helpers: SetAssetSupply → saveAssetSupply)
+			for parent := x.ev.Fr.Parent; parent != nil && !ok; parent = parent.Parent {
+				for _, y := range per[name] {
+					if y.ev.Fr == parent && (strings.HasPrefix(y.ev.Kind, "delta:AssetSupply.") || strings.HasPrefix(y.ev.Kind, "assign:AssetSupply.")) {
+						ok = true
+						why = "next to " + y.ev.Kind
+					}
 				}
 			}
 			if !ok && strings.Contains(x.ev.Args[1].LooseString(), "math.ZeroInt()") {
